@@ -20,3 +20,7 @@ import TephraProps.C16
 #print axioms Tephra.Props.C01_run_report_total
 #print axioms Tephra.Props.C01_harness_report_total
 #print axioms Tephra.Props.C01_count_report_panics
+#print axioms Tephra.Props.C01_lexer_display_total
+#print axioms Tephra.Props.C01_lexer_display_total_any
+#print axioms Tephra.Props.C01_reachable_lexer_display_total
+#print axioms Tephra.Props.C01_harness_lexer_display_total
